@@ -88,3 +88,20 @@ Theorem nodewise_exception_refuted :
                   sites r (Some e) a ++ map (fun j => (j + length a)%nat) (sites r (Some e) b).
 Proof. exact nodewise_exception_refuted_proof. Qed.
 Print Assumptions nodewise_exception_refuted.
+
+(* --- the auxiliary site helpers the graph engine calls (find_all_cleave_and_stop_sites etc.) --- *)
+From MoPep Require Import Model.SitesExtra Proofs.SitesExtraProofs.
+From Coq Require Import Sorted.
+
+Theorem cleave_and_stop_sites_exact : forall r exc given s j,
+  In j (find_all_cleave_and_stop_sites r exc given s) <->
+  In j (sites_given r exc given s) \/
+  ((0 < j)%nat /\ nth_error s j = Some STAR_code) \/
+  (exists i, j = S i /\ nth_error s i = Some STAR_code /\ (i < length s - 1)%nat).
+Proof. exact all_cleave_stop_spec. Qed.
+Print Assumptions cleave_and_stop_sites_exact.
+
+Theorem cleave_and_stop_sites_sorted : forall r exc given s,
+  Sorted lt (find_all_cleave_and_stop_sites r exc given s).
+Proof. exact all_cleave_stop_sorted. Qed.
+Print Assumptions cleave_and_stop_sites_sorted.
